@@ -25,6 +25,8 @@ TEXT = {
             "exhaustive enumeration of factor graphs against a brute-force unrolled reference", "3 C09"),
     "C10": ("All durations x state-pair sizes x batch inputs x dependence subsets x segment counts x 5 semirings through sequential / naive / mixed sum-product and MarkovProduct (eager, lazy+reinterpret, renamed), all lag sets for sarkka_bilmes_product, against the explicit left-to-right fold.",
             "exhaustive enumeration of inputs against an explicit fold reference", "3 C10"),
+    "C14": ("Delta grammar (points, log-densities, substituted values, integrands) enumerated exhaustively against the point-mass semantics; Tensor sampling explored as environment answers: every prescribed uniform draw placed in every CDF interval, on every boundary, at 0.0 and nextafter(1,0), 0 then 1 (quick) then 2 (thorough) deviations from the default draw, checking support, selected cell, mass identity, inputs and determinism; Gaussian sampling with prescribed noise (0, unit vectors): affine in the noise with the dense conditional mean and covariance.",
+            "deviation-bounded exhaustive enumeration of environment answers (random draws) and exhaustive input enumeration against closed forms", "3 C14"),
     "C15": ("Every entry of UNITS, DISTRIBUTIVE_OPS, BINARY/SAFE_BINARY/UNARY_INVERSES, PRODUCT_TO_POWER on an exact-arithmetic operand grid restricted to the op's carrier; every op on every pair of operand forms (Python scalar, numpy scalar, 0-d, arrays up to (3,2)); limit behaviour of logaddexp/logsumexp/log-space einsum with -inf in every position; no-NaN of the safe ops.",
             "exhaustive enumeration of table entries x operand grid against exact arithmetic", "3 C15"),
     "C16": ("Subtype axioms on all pairs/triples of a type pool drawn from every registered signature; for every registry key every synthesised argument-type tuple: the dispatched rule is a minimal matching signature; dispatch is independent of cache state, first-use order and bounded permutations of the registration order.",
